@@ -71,7 +71,7 @@ pub struct MacroCase {
 const STRS: [&str; 9] = ["", "aaaaaa", "aaaaaab", "b|c", "b|", "\"q\"", "x\\y", "aaaaaa|", "aaaaaabb"];
 
 pub fn key_args(k: u8) -> Vec<ArgVal> {
-    let a = [0u128, 0, 0, 1, 1, 10, 10, 10, 1][(k % 9) as usize];
+    let a = if k < 9 { [0u128, 0, 0, 1, 1, 10, 10, 10, 1][k as usize] } else { 100 + k as u128 };
     vec![ArgVal::U(a), ArgVal::Str(STRS[(k % 9) as usize].to_string())]
 }
 
@@ -616,3 +616,204 @@ f2_fns!(run_c16, desc_c16, F2::C16);
 
 pub const L2_LEN_QUICK: usize = 16 + 31 * 6 + 8;
 pub const L2_LEN_THOROUGH: usize = 16 + 55 * 6 + 8;
+
+// ---------------------------------------------------------------------------------------
+// C14: thread scope isolates, global scope shares
+// ---------------------------------------------------------------------------------------
+
+#[derive(Clone, Debug, Hash, PartialEq, Serialize)]
+pub struct ThreadCase {
+    pub fns: Vec<u32>,
+    pub n_threads: u8,
+    pub n_keys: u8,
+    /// (thread, function index, key)
+    pub ops: Vec<(u8, u8, u8)>,
+    pub advances: Vec<(u8, i64)>,
+}
+
+fn c14_candidates() -> &'static Vec<u32> {
+    use std::sync::OnceLock;
+    static C: OnceLock<Vec<u32>> = OnceLock::new();
+    C.get_or_init(|| {
+        static_corpus()
+            .funcs
+            .iter()
+            .filter(|d| simple_sig(d) && !d.is_result() && !d.cache_if && !d.invalidate_on && matches!(d.family, "grid" | "tlru") && d.max_memory.is_none())
+            .map(|d| d.id)
+            .collect()
+    })
+}
+
+pub fn decode_c14(bytes: &[u8], tier: Tier) -> ThreadCase {
+    let mut d = Dec::new(bytes);
+    let cands = c14_candidates();
+    let corpus = static_corpus();
+    let nf = 1 + d.choose(3);
+    let mut fns: Vec<u32> = Vec::new();
+    for i in 0..nf {
+        // bias the first function towards thread scope
+        let mut id = cands[d.choose16(cands.len())];
+        if i == 0 {
+            for _ in 0..4 {
+                if corpus.by_id(id).flavour == Flavour::Thread {
+                    break;
+                }
+                id = cands[d.choose16(cands.len())];
+            }
+        }
+        if !fns.contains(&id) {
+            fns.push(id);
+        }
+    }
+    let n_threads = 2 + d.choose(3) as u8;
+    let max_cap = fns.iter().map(|id| corpus.by_id(*id).limit.unwrap_or(2)).max().unwrap_or(2);
+    let n_keys = (max_cap + 1 + d.choose(2)).min(6) as u8;
+    let n_ops = 6 + d.choose(match tier {
+        Tier::Quick => 30,
+        Tier::Thorough => 50,
+    });
+    let mut ops = Vec::new();
+    let mut advances = Vec::new();
+    for i in 0..n_ops {
+        if d.chance(1, 12) {
+            advances.push((i as u8, [SEC, 2 * SEC, 999_999_999][d.choose(3)]));
+        }
+        ops.push((d.choose(n_threads as usize) as u8, d.choose(fns.len()) as u8, d.choose(n_keys as usize) as u8));
+    }
+    ThreadCase { fns, n_threads, n_keys, ops, advances }
+}
+
+pub fn desc_c14(bytes: &[u8], tier: Tier) -> Value {
+    let c = decode_c14(bytes, tier);
+    let corpus = static_corpus();
+    json!({
+        "functions": c.fns.iter().map(|id| { let d = corpus.by_id(*id); json!({"fn": d.fn_name, "attrs": d.attr_text}) }).collect::<Vec<_>>(),
+        "threads": c.n_threads,
+        "ops(thread,fn,key)": c.ops,
+        "advances(before op, ns)": c.advances,
+    })
+}
+
+pub fn run_c14(bytes: &[u8], tier: Tier) -> CaseOut {
+    use std::sync::mpsc::{channel, Sender};
+    use std::sync::{Arc, Mutex};
+    let case = decode_c14(bytes, tier);
+    let mut out = CaseOut { key: hash_of(&case), ..CaseOut::default() };
+    let corpus = static_corpus();
+    vrt::clock::freeze(0);
+    crate::infra::install_panic_hook_once();
+    // simulation slots: one per (thread-scope function, thread), one per shared function
+    let nt = case.n_threads as usize;
+    let mut slot_of: Vec<Vec<usize>> = Vec::new(); // [fn index][thread] -> slot
+    let mut ids: Vec<u32> = Vec::new();
+    for id in &case.fns {
+        let d = corpus.by_id(*id);
+        if d.flavour == Flavour::Thread {
+            let base = ids.len();
+            for _ in 0..nt {
+                ids.push(*id);
+            }
+            slot_of.push((0..nt).map(|t| base + t).collect());
+        } else {
+            let s = ids.len();
+            ids.push(*id);
+            slot_of.push(vec![s; nt]);
+        }
+    }
+    let sim = match MacroSim::new(corpus, &ids) {
+        Ok(s) => Arc::new(Mutex::new(s)),
+        Err(_) => {
+            out.aborted_foreign = true;
+            vrt::clock::unfreeze();
+            return out;
+        }
+    };
+    type Job = (usize, u8);
+    let mut senders: Vec<Option<Sender<Option<Job>>>> = (0..nt).map(|_| None).collect();
+    let mut handles = Vec::new();
+    let (res_tx, res_rx) = channel::<crate::macro_l2::CallInfo>();
+    let mut callers: BTreeMap<(u8, u8), BTreeSet<u8>> = BTreeMap::new();
+    let mut shared_by_two = false;
+    let mut started_late_hit = false;
+    let mut threads_started = 0usize;
+
+    'ops: for (i, (t, f, k)) in case.ops.iter().enumerate() {
+        for (at, ns) in &case.advances {
+            if *at as usize == i {
+                vrt::clock::advance_ns(*ns);
+            }
+        }
+        let t = *t as usize % nt;
+        let fi = *f as usize % case.fns.len();
+        if senders[t].is_none() {
+            let (tx, rx) = channel::<Option<Job>>();
+            let sim2 = sim.clone();
+            let res = res_tx.clone();
+            let seed = out.key ^ (t as u64 + 1);
+            handles.push(std::thread::spawn(move || {
+                fastrand::seed(seed | 1);
+                while let Ok(Some((slot, key))) = rx.recv() {
+                    let args = key_args(key);
+                    let info = sim2.lock().unwrap().call(slot, None, &args, &CallScript::default());
+                    let _ = res.send(info);
+                }
+            }));
+            senders[t] = Some(tx);
+            threads_started += 1;
+        }
+        let slot = slot_of[fi][t];
+        senders[t].as_ref().unwrap().send(Some((slot, *k))).expect("send job");
+        let info = match res_rx.recv() {
+            Ok(i) => i,
+            Err(_) => {
+                eprintln!("INCONCLUSIVE: C14 worker thread died");
+                std::process::exit(2);
+            }
+        };
+        if info.panicked.is_some() {
+            out.aborted_foreign = true;
+            break 'ops;
+        }
+        let set = callers.entry((fi as u8, *k)).or_default();
+        let first_time_for_thread = set.insert(t as u8);
+        if set.len() >= 2 {
+            shared_by_two = true;
+            if first_time_for_thread && !info.executed && threads_started >= 2 {
+                started_late_hit = true;
+            }
+        }
+        let d = corpus.by_id(case.fns[fi]);
+        for fnd in &info.findings {
+            if matches!(fnd.clause, "hit-absent" | "miss-present" | "ret-value" | "value" | "stale-store" | "served-expired") {
+                out.violation = Some(Violation {
+                    signature: format!("C14:{}:{}:{}", match d.flavour { Flavour::Global => "global", Flavour::Thread => "thread", Flavour::Async => "async" }, d.effective_policy().name(), fnd.clause),
+                    clause: fnd.clause.to_string(),
+                    step: i,
+                    expected: format!("[thread {} calls {} ({})] {}", t, d.fn_name, d.attr_text, fnd.expected),
+                    observed: fnd.observed.clone(),
+                });
+                break 'ops;
+            }
+        }
+    }
+    for s in senders.iter().flatten() {
+        let _ = s.send(None);
+    }
+    for h in handles {
+        let _ = h.join();
+    }
+    out.nontrivial = shared_by_two;
+    if shared_by_two {
+        out.classes.push("same_call_from_two_threads");
+    }
+    if started_late_hit {
+        out.classes.push("shared_hit_in_other_thread");
+    }
+    for (f, c) in [(Flavour::Global, "flavour_global"), (Flavour::Thread, "flavour_thread"), (Flavour::Async, "flavour_async")] {
+        if case.fns.iter().any(|id| corpus.by_id(*id).flavour == f) {
+            out.classes.push(c);
+        }
+    }
+    vrt::clock::unfreeze();
+    out
+}
